@@ -197,13 +197,32 @@ func drawConcrete(t *rapid.T, op string) Case {
 	case "Equals", "NotEqual":
 		a := gen.AnyValue(valTypes, concrete).Draw(t, "a")
 		var b spec.V
-		switch rapid.IntRange(0, 5).Draw(t, "rel") {
+		switch rapid.IntRange(0, 6).Draw(t, "rel") {
 		case 0:
 			b = gen.AnyValue(valTypes, concrete).Draw(t, "b")
 		case 1, 2:
 			b = a.Clone()
 		case 3:
 			b = gen.Value(a.T, concrete).Draw(t, "b") // same type, other content
+		case 5:
+			// the same numbers spelled through another route: a non-integral
+			// float64 and the parse of its shortest decimal text are equal
+			// (text-based number equality) but numerically different, which is
+			// where a bound placed AT one of them and an order-based test part
+			if rapid.Bool().Draw(t, "plainnum") {
+				i := rapid.IntRange(-40, 40).Draw(t, "tenths")
+				txt := strconv.FormatFloat(float64(i)/10, 'f', 1, 64)
+				f, _ := strconv.ParseFloat(txt, 64)
+				a = spec.KnownNum(spec.NFloat(f))
+			}
+			var changed bool
+			b, changed = RespellNumbers(a)
+			if !changed {
+				b = Perturb(t, a)
+			}
+			if rapid.Bool().Draw(t, "swap") {
+				a, b = b, a
+			}
 		default:
 			b = Perturb(t, a)
 		}
@@ -317,6 +336,39 @@ func drawKey(t *rapid.T, coll spec.V) spec.V {
 		}
 		return spec.KnownNum(spec.NInt(0))
 	}
+}
+
+// RespellNumbers returns a copy of v in which every known non-integral number
+// is held through the other route with the same shortest decimal text
+// (float64 <-> parsed at 512 bits); changed is false when there is none.
+func RespellNumbers(v spec.V) (out spec.V, changed bool) {
+	out = v.Clone()
+	var rec func(x *spec.V)
+	rec = func(x *spec.V) {
+		if x.St == spec.Known && x.T.K == spec.KNumber && x.N != nil && !x.N.IsInf() {
+			f := x.N.Float()
+			if !f.IsInf() && !f.IsInt() {
+				txt := f.Text('f', -1)
+				switch x.N.Route {
+				case "float":
+					n := spec.NParse(txt)
+					x.N = &n
+					changed = true
+				default:
+					if f64, err := strconv.ParseFloat(txt, 64); err == nil && strconv.FormatFloat(f64, 'f', -1, 64) == txt {
+						n := spec.NFloat(f64)
+						x.N = &n
+						changed = true
+					}
+				}
+			}
+		}
+		for i := range x.Elems {
+			rec(&x.Elems[i])
+		}
+	}
+	rec(&out)
+	return out, changed
 }
 
 // Perturb returns v with exactly one position changed (a leaf altered, a
